@@ -1021,6 +1021,11 @@ def _setUp(self):
              if ORIG_STDOUT is not None else None)
     world.point('test.setUp:' + tid)
     self.addCleanup(_cleanup, self)
+    if kind == 'cleanup_builtin_error':
+        # a clean-up that is a C function, registered directly, and fails:
+        # the traceback of that error has no frame of test code at all
+        self.addCleanup(os.rmdir, os.path.join(
+            os.sep, 'nonexistent-ztr', 'dir-of-' + self._testMethodName))
     if os.environ.get('ZTR_CHDIR_TESTS'):
         # ZTR_CHDIR_TESTS=<n>: the n-th test that starts in a process works
         # in a scratch directory and does not go back
